@@ -15,7 +15,7 @@ TRUST = ('trusted base: numeric version comparison in simaudit.refmodels; MASTER
 TECHNIQUE = 'deterministic simulation as the end-to-end observation point; reference model with numeric version order'
 LEVEL = 'exploration'
 BUDGET = {'quick': 200, 'thorough': 2400}
-NCASES = {'quick': 500, 'thorough': 9000}
+NCASES = {'quick': 1500, 'thorough': 9000}
 RULE = ('cases: (product, version with 2-4 components, patch suffix) x a seeded advertised set. non-trivial: banner version with >= 2 components that the tool recognised; distinct '
         'by (product, version, patch).')
 ASSUMPTIONS = ['a banner whose version the tool does not recognise as a product release (no "(gen) software:" line) is not judged']
